@@ -637,6 +637,10 @@ func genCli(w *bufio.Writer, r *rand.Rand, n int) {
 		if s < 3*ln+1 {
 			s = 3*ln + 1
 		}
+		if r.Intn(6) == 0 {
+			// the smallest cores the tool supports: one or two possible places for warrior 2
+			s = 3*ln + 1 + int64(r.Intn(2))
+		}
 		p := []int64{1, 2, 8, 8000}[r.Intn(4)]
 		c := []int64{1, 10, 100, 500, 2000}[r.Intn(5)]
 		rounds := int64(1 + r.Intn(3))
